@@ -14,6 +14,7 @@ Walk(obs, k, cur, outState, outBytes) ==
   LET o == obs[k] IN
   CASE o.res = "panic" -> {"panic"}
     [] o.op = "zero" -> Walk(obs, k + 1, o.post, outState, outBytes)
+    [] o.op = "unmarshal" /\ o.obj # "d" -> Walk(obs, k + 1, cur, outState, outBytes)        \* another variable: must not matter (checked by the probe that follows)
     [] o.op = "unmarshal" ->
          IF o.res = "ok"
          THEN (IF o.freshres # "ok" THEN {"accepted-only-because-of-history"} ELSE IF o.post # o.fresh THEN {"decoded-value-depends-on-previous-content"} ELSE {})
@@ -21,7 +22,7 @@ Walk(obs, k, cur, outState, outBytes) ==
          ELSE (IF o.freshres = "ok" THEN {"rejected-only-because-of-history"} ELSE {})
               \cup (IF o.post # cur THEN {"failed-decode-modified-the-destination"} ELSE {})
               \cup Walk(obs, k + 1, o.post, outState, outBytes)      \* continue from the observed state: one defect, one report
-    [] o.op = "probe" -> (IF o.post # cur THEN {"decoded-value-shares-memory-with-a-buffer"} ELSE {}) \cup Walk(obs, k + 1, o.post, outState, outBytes)
+    [] o.op = "probe" -> (IF o.post # cur THEN {"decoded-value-shares-memory-with-a-buffer-or-another-decoded-value"} ELSE {}) \cup Walk(obs, k + 1, o.post, outState, outBytes)
     [] o.op = "marshal" ->
          (IF o.post # cur THEN {"serialising-modified-the-object"} ELSE {})
          \cup (IF o.res = "ok" /\ outState = cur /\ o.out # outBytes THEN {"serialisation-affected-by-overwriting-an-earlier-output"} ELSE {})
